@@ -138,10 +138,29 @@ func (b *bmcSys) findRacy() bool {
 			}
 		}
 	}
+	ghost := map[string]bool{}
+	for _, o := range b.w.Objs {
+		if o.Ghost {
+			ghost[fmt.Sprintf("o%d", o.ID)] = true
+		}
+	}
+	for _, o := range b.allocs {
+		if o.Ghost {
+			ghost[fmt.Sprintf("o%d", o.ID)] = true
+		}
+	}
 	found := false
 	for k, a := range cells {
 		if b.racy[k] || len(a.w) == 0 {
 			continue
+		}
+		if base := k; true {
+			if i := strings.Index(base, "."); i >= 0 {
+				base = base[:i]
+			}
+			if ghost[base] {
+				continue // ghost counters of the harness are updated atomically with the step that bumps them
+			}
 		}
 		procs := map[int]bool{}
 		for p := range a.r {
@@ -173,6 +192,10 @@ func (b *bmcSys) racyList() []string {
 func (b *bmcSys) check() {
 	f := b.f
 	m := b.setup
+	// the path condition of the set-up run (Assume, forks on symbolic branches) is
+	// part of every query of this configuration: a set-up path replayed from a
+	// decision prefix may end without a feasibility check that would flush it
+	m.flushPC()
 	b.now = b.newState("now", term.BV(clockW), f.BVC(clockW, 0))
 	b.panicVar = b.newState("panic", term.Bool, f.False())
 	b.clock = b.job.Params["clock"]
